@@ -1,5 +1,10 @@
 package bondmachine
 
+import (
+	"strconv"
+	"strings"
+)
+
 func zzC16NeededBits() {
 	num := zzNondetInt("num")
 	zzAssume(num >= 0)
@@ -15,9 +20,83 @@ func zzC16NeededBits() {
 	zzReach("end")
 }
 
+// zzC16EmittedBM: the bond graph of a machine emitted by the basm front-end (lists as printed by the native run)
+// against the endpoints its processors need and the bonds its source declares ("out>in" names).
+func zzC16EmittedBM(inputs int, outputs int, nm string, ins string, outs string, links string, declared string) {
+	split := func(s string, sep string) []string {
+		if s == "" {
+			return nil
+		}
+		return strings.Split(s, sep)
+	}
+	inl, outl := split(ins, ","), split(outs, ",")
+	var ll []int
+	for _, f := range split(links, " ") {
+		v, err := strconv.Atoi(f)
+		zzAssert("links-are-numbers", err == nil)
+		ll = append(ll, v)
+	}
+	count := func(l []string, x string) int {
+		n := 0
+		for _, y := range l {
+			if x == y {
+				n++
+			}
+		}
+		return n
+	}
+	index := func(l []string, x string) int {
+		for i, y := range l {
+			if x == y {
+				return i
+			}
+		}
+		return -1
+	}
+	zzAssert("one-link-slot-per-internal-input", len(ll) == len(inl))
+	nin, nout := outputs, inputs
+	for k := 0; k < outputs; k++ {
+		zzAssert("bm-output-endpoint-exactly-once", count(inl, "o"+strconv.Itoa(k)) == 1)
+	}
+	for k := 0; k < inputs; k++ {
+		zzAssert("bm-input-endpoint-exactly-once", count(outl, "i"+strconv.Itoa(k)) == 1)
+	}
+	for p, d := range split(nm, ",") {
+		f := strings.Split(d, ":")
+		n, _ := strconv.Atoi(f[0])
+		m, _ := strconv.Atoi(f[1])
+		nin += n
+		nout += m
+		for e := 0; e < n; e++ {
+			zzAssert("processor-input-endpoint-exactly-once", count(inl, "p"+strconv.Itoa(p)+"i"+strconv.Itoa(e)) == 1)
+		}
+		for e := 0; e < m; e++ {
+			zzAssert("processor-output-endpoint-exactly-once", count(outl, "p"+strconv.Itoa(p)+"o"+strconv.Itoa(e)) == 1)
+		}
+	}
+	zzAssert("endpoint-lists-match-port-counts", len(inl) == nin && len(outl) == nout)
+	if len(ll) > 0 {
+		k := zzNondetInt("slot")
+		zzAssume(k >= 0 && k < len(ll))
+		zzAssert("every-link-points-at-an-existing-internal-output", ll[k] >= -1 && ll[k] < len(outl))
+	}
+	for _, b := range split(declared, ",") {
+		e := strings.Split(b, ">")
+		i, o := index(inl, e[1]), index(outl, e[0])
+		zzAssert("declared-bond-endpoints-exist", i >= 0 && o >= 0)
+		if i >= 0 && o >= 0 && i < len(ll) {
+			zzAssert("declared-bond-present", ll[i] == o)
+		}
+	}
+	zzReach("end")
+}
+
 func zzDispatch(name string, args []string) {
+	atoi := func(s string) int { v, _ := strconv.Atoi(s); return v }
 	switch name {
 	case "zzC16NeededBits":
 		zzC16NeededBits()
+	case "zzC16EmittedBM":
+		zzC16EmittedBM(atoi(args[0]), atoi(args[1]), args[2], args[3], args[4], args[5], args[6])
 	}
 }
